@@ -34,6 +34,21 @@ def main():
             return builtins.open(file, mode, *a, **kw)
 
         ply.yacc.open = shim
+    if plan.get("clock_step") is not None:
+        # the clock behind a seam: every reading advances simulated time by a per-process step
+        # (nothing in nsl reads a clock today; code that starts to must not let it reach an output)
+        import time as _time
+
+        state = {"t": 1_700_000_000.0}
+
+        def _now():
+            state["t"] += plan["clock_step"]
+            return state["t"]
+
+        for name in ("time", "monotonic", "perf_counter", "process_time"):
+            setattr(_time, name, _now)
+        for name in ("time_ns", "monotonic_ns", "perf_counter_ns", "process_time_ns"):
+            setattr(_time, name, lambda: int(_now() * 1e9))
     os.makedirs(plan["cwd"], exist_ok=True)
     os.chdir(plan["cwd"])
     result = {"obs": [], "boot": None, "table_regenerated": False, "table_write_refused": 0}
